@@ -58,6 +58,13 @@ def writer_jobs(ctx):
       out.append(({'strategy': strat, 'max_cache': mc, 'flow': flow, 'files': ('a',), 'init': [('a', 1, 1.0), ('a', 2, 1.5)],
                    'reactor': [('store', 'b', 1, 2.0), ('store', 'c', 1, 3.0), ('store', 'b', 2, 4.0)], 'passes': 2, 'faults': True,
                    'oracles': ('c10',)}, (1, fb)))
+  # a pass of the writer that ends while the cache is still full: under a timestamp lag the time-sorted strategy hands
+  # nothing out while every datapoint is younger than the lag (virtual clock 1000, lag 5, timestamps 998/999); what the
+  # writer does between two passes must not make room that is not there
+  for mc, flow in ((2, False), (2, True)):
+    out.append(({'strategy': 'timesorted', 'lag': 5, 'max_cache': mc, 'flow': flow, 'files': ('a', 'b', 'c'),
+                 'init': [('a', 999, 1.0), ('b', 999, 1.5)], 'reactor': [('store', 'c', 999, 3.0), ('store', 'a', 998, 2.0), ('store', 'c', 998, 4.0)],
+                 'passes': 2, 'faults': False, 'oracles': ('c10',)}, (1, 0)))
   return out
 
 
